@@ -61,11 +61,7 @@ def TestOneInput(data):
     N[0] += 1
     if N[0] % 5000 == 0:
         dump_counts()
-    try:
-        text = data.decode("utf_8")
-    except UnicodeDecodeError:
-        COUNTS["undecodable"] += 1
-        return
+    text = data.decode("utf_8", "replace")
     v = X.classify(text)
     COUNTS[v[0]] += 1
     if v[0] == X.MUST_REJECT:
